@@ -333,6 +333,9 @@ func checkC10(t *testing.T, env *report.Env, rep *report.Report) {
 	}{{"[a]", []string{"a"}, false}, {"[a,b]", []string{"a", "b"}, false}, {"[a,a]", []string{"a", "a"}, false}, {"[b,a,b]", []string{"b", "a", "b"}, false}, {"struct{a,b}", []string{"a", "b"}, true}, {"struct{a}", []string{"a"}, true}}
 	caches := []string{"none", "empty", "partial", "complete", "stale", "malformed", "invalid-entry", "readerr"}
 	scripts := []int{0, 1, 2, 3, 12, 13, 14, -1}
+	if env.Thorough() {
+		scripts = []int{0, 1, 2, 3, 4, 5, 10, 11, 12, 13, 14, 15, -1}
+	}
 	ctxs := []string{"none", "expired", "5ms", "3s", "10s"}
 	idx := int64(0)
 	for _, l := range lists {
